@@ -8,6 +8,22 @@
 
 #include "node.h"
 
+/* clone children of source and make copy their parent */
+static MPT_STRUCT(node) *clone_children(MPT_STRUCT(node) *cpy, const MPT_STRUCT(node) *src)
+{
+	MPT_STRUCT(node) *child;
+	
+	if (!(child = mpt_list_clone(src->children))) {
+		return 0;
+	}
+	cpy->children = child;
+	do {
+		child->parent = cpy;
+	} while ((child = child->next));
+	
+	return cpy->children;
+}
+
 extern MPT_STRUCT(node) *mpt_list_clone(const MPT_STRUCT(node) *src)
 {
 	MPT_STRUCT(node) *first = 0, *last = 0;
@@ -23,7 +39,7 @@ extern MPT_STRUCT(node) *mpt_list_clone(const MPT_STRUCT(node) *src)
 			}
 			/* require empty or cloned subtree */
 			if (!src->children
-			    || (cpy->children = mpt_list_clone(src->children))) {
+			    || clone_children(cpy, src)) {
 				continue;
 			}
 		}
@@ -44,7 +60,7 @@ extern MPT_STRUCT(node) *mpt_tree_clone(const MPT_STRUCT(node) *src)
 		return 0;
 	}
 	if (src->children
-	    && !(cpy->children = mpt_list_clone(src->children))) {
+	    && !clone_children(cpy, src)) {
 		mpt_node_destroy(cpy);
 		return 0;
 	}
